@@ -177,3 +177,27 @@ def mutants(argv):
     killed = sum(1 for r in results if r.get("verdict") == "killed")
     print("mutants: %d run, %d killed, %d not as expected" % (len(results), killed, bad))
     return 0 if bad == 0 else 1
+
+
+# ------------------------------------------------------------------ stored replays
+
+
+def replays(argv):
+    """Every replay file kept under findings/ is a minimised history that violated
+    its property on the pinned tree and was repaired: replaying it on the current
+    tree must NOT reproduce (a `fixed` entry suppresses nothing - if the defect
+    ever returns the ordinary check reports it again, and this self-test says so
+    directly)."""
+    from .launcher import replay
+
+    rc = 0
+    files = sorted(glob.glob(os.path.join(VERIF, "findings", "*.json")))
+    for f in files:
+        with open(f) as fh:
+            prop = json.load(fh)["property"]
+        r = replay(prop, f)
+        print("%s: %s" % (os.path.basename(f), "REPRODUCES (the repaired defect is back)" if r else "does not reproduce on the current tree"))
+        if r:
+            rc = 1
+    print("stored finding replays: %d, reproducing: %s" % (len(files), "some" if rc else "none"))
+    return rc
